@@ -648,7 +648,8 @@ fn clip_color(r: &mut f32x8, g: &mut f32x8, b: &mut f32x8, a: f32x8) {
 
     let clip = |mut c| {
         c = mn.cmp_ge(f32x8::default()).blend(c, l + (c - l) * l / (l - mn));
-        c = mx.cmp_gt(a).blend(l + (c - l) * (a - l) / (mx - l), c);
+        // A gray color has `mx == l`: nothing to scale, and `0 / 0` would turn the channel into NaN.
+        c = (mx.cmp_gt(a) & mx.cmp_ne(l)).blend(l + (c - l) * (a - l) / (mx - l), c);
         c = c.max(f32x8::default()); // Sometimes without this we may dip just a little negative.
         c
     };
